@@ -291,7 +291,7 @@ func runnerLineage(r *lib.Run, idx int) {
 		// interruption of this run
 		kind := "clean"
 		if !final {
-			kind = []string{"clean", "clean", "cancel", "cancel", "cancel", "crash", "crash", "write-error", "cancel+crash"}[rng.IntN(9)]
+			kind = []string{"clean", "clean", "cancel", "cancel", "cancel", "crash", "crash", "write-error", "cancel+crash", "read-error"}[rng.IntN(10)]
 		}
 		work := st.Copy()
 		rec := newRecDB(work)
@@ -306,6 +306,12 @@ func runnerLineage(r *lib.Run, idx int) {
 		}
 		if kind == "write-error" {
 			rec.failAt = rng.IntN(2 + cur.N*3)
+		}
+		// one point read fails (an I/O error that goes away): the run may stop with the error or cope;
+		// whatever it does, a migration that is (re)started must be handed the state the database holds
+		readErr := kind == "read-error"
+		if readErr {
+			rec.failReadAt = 1 + rng.Int64N(3+int64(cur.N)*2)
 		}
 		cl := &callLog{}
 		reg := migration.NewRegistry()
@@ -375,6 +381,13 @@ func runnerLineage(r *lib.Run, idx int) {
 			// an accepted database that had to be refused: stop the lineage here, the
 			// oracle has no expectation for what follows
 			return
+		}
+		if nerr != nil && readErr && errors.Is(nerr, errInjectedRead) {
+			// the failing read hit NewRunner: nothing was started
+			r.Count("runner.read-error-hit-NewRunner", 1)
+			history[len(history)-1] += " => NewRunner: " + nerr.Error()
+			cancel()
+			continue
 		}
 		if nerr != nil {
 			viol("newrunner-refuses-acceptable-database", fmt.Sprintf("target %05b current=%05b last=%05b: %v", uint64(target), uint64(pre.Current), uint64(pre.Last), nerr))
@@ -448,7 +461,7 @@ func runnerLineage(r *lib.Run, idx int) {
 			}
 			r.Count("runner.migrate-calls", 1)
 		}
-		if !stopped && len(cl.calls) < len(pend) && !cancelled && rec.failAt < 0 {
+		if !stopped && len(cl.calls) < len(pend) && !cancelled && rec.failAt < 0 && !(readErr && rerr != nil) {
 			viol("runner-skips-pending-migration", fmt.Sprintf("calls %s, pending slots %v, run returned %v", fmtCalls(cl.calls), pend, rerr))
 		}
 		if rerr == nil && (sawFail || stopped) {
@@ -502,7 +515,10 @@ func runnerLineage(r *lib.Run, idx int) {
 		}
 
 		// ---- exact expectations when nothing was injected into the store
-		if crashK < 0 && rec.failAt < 0 {
+		if readErr {
+			r.Count(fmt.Sprintf("runner.read-error-runs:returned-error=%v", rerr != nil), 1)
+		}
+		if crashK < 0 && rec.failAt < 0 && !(readErr && rerr != nil) {
 			if post.Last != target {
 				viol("last-target-not-recorded", fmt.Sprintf("last %05b target %05b", uint64(post.Last), uint64(target)))
 			}
